@@ -166,6 +166,24 @@ def _copy_through_bases(route: str, trace: dict, res: Result, cls: type, obj, wa
         res.count(f"{route}:copy-through-base:{base.__name__}")
 
 
+def _prelude(trace):
+    """An earlier to_json call with a keyword argument for json.dumps, on an unrelated all-zero message (finite, ASCII).
+    Whether that call itself is accepted is not judged (the keyword may clash with one the method passes itself)."""
+    kw = {"allow_nan": {"allow_nan": False}, "ensure_ascii": {"ensure_ascii": False}, "sort_keys": {"sort_keys": True},
+          "separators": {"separators": (", ", " : ")}}.get(trace.get("prelude"))
+    if not kw:
+        return
+    from pyrtma.core_defs import MDF_CLIENT_INFO
+    from pyrtma.message import Message, get_header_cls
+
+    for mini in (False, True):
+        for obj in (MDF_CLIENT_INFO(), Message(get_header_cls(False)(), MDF_CLIENT_INFO())):
+            try:
+                obj.to_json(minify=mini, **kw)
+            except Exception:  # noqa
+                pass
+
+
 def _charlist(cls: type, d: dict) -> int:
     """Rewrite (in place) every String field of dict d as a list of characters; returns how many."""
     n = 0
@@ -478,6 +496,7 @@ def check_route(trace: dict, res: Result, cls: type, m, marks: set, st_: dict, f
         if bytes(m) != b:
             raise Violation(f"{route}/source-modified", f"{name}: to_dict/from_dict modified the source message", trace)
     elif route == "json":
+        _prelude(trace)
         for mini in (False, True):
             s = _call(route, f"to_json(minify={mini})", trace, m.to_json, minify=mini)
             if not isinstance(s, str):
@@ -527,6 +546,7 @@ def check_route(trace: dict, res: Result, cls: type, m, marks: set, st_: dict, f
         _same(route, f"{hname}.copy(h)", hcls, hc, hb, trace)
         _disjoint(route, f"{hname}.copy(h)", h, hc, trace)
         _copy_through_bases(route, trace, res, hcls, h, hb)
+        _prelude(trace)
         for mini in (False, True):
             s = _call(route, f"Message.to_json(minify={mini})", trace, msg.to_json, minify=mini)
             r = _call(route, f"Message.from_json(version={'hash' if trace['ver'] else 0})", trace, Message.from_json, s)
@@ -713,6 +733,10 @@ def case(draw, route: str):
     if len(sets) > 1 and draw(st.booleans()):
         # conversions repeated on the same object(s) with stores in between
         t["cp"] = sorted(set(draw(st.lists(st.integers(0, len(sets) - 2), min_size=1, max_size=2))))
+    if route in ("json", "message") and draw(st.integers(0, 3)) == 0:
+        # an EARLIER conversion of some other (all-zero) message with a json.dumps keyword argument of the caller's
+        # choosing: what one call was asked for must not stick to later calls
+        t["prelude"] = draw(st.sampled_from(["allow_nan", "ensure_ascii", "sort_keys", "separators"]))
     if route == "message":
         if t.get("cp"):
             t["swap"] = draw(st.integers(0, 3)) == 0
